@@ -449,7 +449,15 @@ bool deserialize(const std::string& b, Outcome& o) {
 
 enum class Child { Returned, Crashed, Hang, Broken, Starved };
 // Runs the parser on an exact-size copy in a forked child.  `how` describes an abnormal end.
+Child call_forked_once(const std::string& doc, Outcome& out, std::string& how);
+// A parser that hangs does so every time; a forked child of a sanitizer process can also get stuck by accident (locks
+// inherited at fork time).  Only a hang that repeats in two further fresh children is reported.
 Child call_forked(const std::string& doc, Outcome& out, std::string& how) {
+    Child st = call_forked_once(doc, out, how);
+    for (int attempt = 0; attempt < 2 && st == Child::Hang; ++attempt) st = call_forked_once(doc, out, how);
+    return st;
+}
+Child call_forked_once(const std::string& doc, Outcome& out, std::string& how) {
     int fds[2];
     if (pipe(fds) != 0) { how = "pipe failed"; return Child::Broken; }
     std::fflush(nullptr);
